@@ -143,6 +143,8 @@ def provenance(run: pipe.Run, upto=None):
             if p in pending_dirops:
                 pending_dirops.discard(p)
                 pending_dirops.add(q)
+            elif p[0] == "O" and q[0] == "R":
+                pending_dirops.add(q)        # a directory that has just arrived from outside
     return tags
 
 
